@@ -5,9 +5,9 @@ class C01(Prop):
     pid = "C01"
     check_mod = "C01"
     drivers = [dict(pkg="internal/auth", test="TestVerifC01")]
-    n_quick = 800
+    n_quick = 600
     n_thorough = 30000
-    shard = 100
+    shard = 75
     ready = True
     manifest = dict(
         text="Coq theorems, for ALL user lists, requests and oracle behaviours, over a Gallina transliteration of "
